@@ -3,6 +3,7 @@ Realign a GAF file using wavefront alignment algorithm (WFA).
 """
 
 import logging
+import os
 import sys
 import pysam
 import queue
@@ -169,6 +170,8 @@ def realign_gaf(gaf, graph, fasta, output, cores=1):
 
     seq_batch = []
     batch_size = 1000
+    if os.environ.get("GAFTOOLS_VERIF") == "1":  # verification hook: small batches
+        batch_size = int(os.environ.get("GAFTOOLS_VERIF_BATCH_SIZE", batch_size))
     gaf_file = GAF(gaf)
     priority_counter = 0
     for line in gaf_file.read_file():
